@@ -402,6 +402,44 @@ def _check_signature(fnrec):
             fnrec["qual"], fnrec["sig_sha256"], fnrec["sig_expect"], fnrec["real_sig"]))
 
 
+_BASELINE = None
+_KW = set("as break const continue crate else enum extern false fn for if impl in let loop match mod move mut pub ref return self Self static struct super trait true type unsafe use where while async await dyn".split())
+
+
+def _local_renaming(unit_name, qual, body):
+    """{old: new} if `body` equals the pinned body of this function (units/baseline_bodies.json) token for token except for a
+    consistent, injective renaming of identifiers that are only ever used as plain variables; None otherwise."""
+    global _BASELINE
+    if _BASELINE is None:
+        p = os.path.join(VERIF, "units", "baseline_bodies.json")
+        _BASELINE = json.load(open(p)) if os.path.exists(p) else {}
+    base = _BASELINE.get(unit_name, {}).get(qual)
+    if not base:
+        return None
+    now = [t.text for t in tokenize(body)]
+    if len(now) != len(base) or now == base:
+        return None
+    ren, back = {}, {}
+    for k, (a, b) in enumerate(zip(base, now)):
+        if a == b:
+            continue
+        if not (re.fullmatch(r"[A-Za-z_]\w*", a) and re.fullmatch(r"[A-Za-z_]\w*", b)) or a in _KW or b in _KW:
+            return None
+        if ren.setdefault(a, b) != b or back.setdefault(b, a) != a:
+            return None
+    for k, (a, b) in enumerate(zip(base, now)):
+        prev, nxt = (base[k - 1] if k else ""), (base[k + 1] if k + 1 < len(base) else "")
+        if a in ren and (a == b or prev in (".", "::") or nxt in ("(", "::", "!")):
+            return None      # the old name also stands for something that is not this variable (field, method, path, macro)
+        if a == b and a in back:
+            return None      # the new name already meant something else in the pinned body
+    return ren
+
+
+def _rename_idents(text, ren):
+    return re.sub(r"(?<![\w.])(%s)(?!\w)" % "|".join(re.escape(k) for k in ren), lambda m: ren[m.group(1)], text)
+
+
 def _emit_body(unit, fnrec, dirs):
     _check_signature(fnrec)
     for nm in fnrec.get("mut_params", []):
@@ -423,6 +461,11 @@ def _emit_body(unit, fnrec, dirs):
         unit.lost_hints.append("%s takes the lock %d times: the one-atomic-step reading of rule R4 does not cover it" % (fnrec["qual"], len(re.findall(r"\.lock\(\)", orig))))
         unit.outside_reading.append({"fn": fnrec["qual"], "props": list(fnrec["props"]),
                                      "why": "%s takes the lock %d times; rule R4 reads one critical section per call as one atomic step, so its contract says nothing about the intermediate state the other thread can see" % (fnrec["qual"], len(re.findall(r"\.lock\(\)", orig)))})
+    ren = _local_renaming(unit.name, fnrec["qual"], orig)
+    if ren:
+        # the body is the pinned body up to a consistent renaming of local variables: carry the overlay's hints along
+        dirs = [(tl, _rename_idents(d, ren)) for (tl, d) in dirs]
+        fnrec["renamed_locals"] = ren
     body = apply_rules(body, fnrec["rules"], unit, fnrec["qual"])
     body = _keep_lines(orig, body)
     if body.count("\n") != orig.count("\n"):
